@@ -35,7 +35,7 @@ class C12(Property):
                   "fairness of the event loop is not part of the theorems (each woken task is assumed to run once)")
     assumptions = ["asyncio.Condition semantics as modelled", "every woken task eventually runs (event-loop fairness)",
                    "an allocation never makes another request fit (proved for the ledger instance: ledger_antitone)"]
-    quick_budget_s = 300
+    quick_budget_s = 600
 
     def explore(self, ctx: Ctx) -> None:
         schedprop.explore(ctx, self.pid)
